@@ -224,6 +224,16 @@ def known_gap(run: core.Run) -> None:
         run.fail(core.Failure("gap|>1.0|<1.0.post0.dev0",
                               "(>1.0 & <1.0.post0.dev0).is_empty() is False although no public version lies between",
                               {"op": "gap", "a": ">1.0", "b": "<1.0.post0.dev0"}))
+    # the same root at the end of the order: 0.dev0 is the least PEP 440 version (epoch 0), so `>=0.dev0 | >=0.dev0` admits
+    # every version and `<0.dev0 & <0.dev0` none, but neither is reported by is_any() / is_empty()
+    lo = parse_version_specifier(">=0.dev0")
+    if not (lo | lo).is_any():
+        run.fail(core.Failure("least|>=0.dev0", "(>=0.dev0 | >=0.dev0).is_any() is False although every PEP 440 version is >= 0.dev0",
+                              {"op": "least", "a": ">=0.dev0"}))
+    hi = parse_version_specifier("<0.dev0")
+    if not (hi & hi).is_empty():
+        run.fail(core.Failure("least|<0.dev0", "(<0.dev0 & <0.dev0).is_empty() is False although no PEP 440 version is < 0.dev0",
+                              {"op": "least", "a": "<0.dev0"}))
 
 
 def search(prop: str, run: core.Run) -> None:
@@ -291,6 +301,9 @@ def replay(data: dict) -> bool:
     r = data["replay"]
     if r["op"] == "gap":
         return not (parse_version_specifier(r["a"]) & parse_version_specifier(r["b"])).is_empty()
+    if r["op"] == "least":
+        s0 = parse_version_specifier(r["a"])
+        return not ((s0 | s0).is_any() if r["a"].startswith(">") else (s0 & s0).is_empty())
     if r["op"] == "parse":
         try:
             parse_version_specifier(r["text"])
